@@ -370,11 +370,15 @@ void generate(sim::Rng& g, const std::string&, const std::string& tier, Json& pr
 
 void execute(const Json& program, const sim::Config& cfg, const std::string&) {
     sim::run(cfg, [&] {
-        switch ((int)program.get("sig", 0)) {
-            case 0: run_sig<>(program); break;
-            case 1: run_sig<int>(program); break;
-            case 2: run_sig<const std::string&>(program); break;
-            default: run_sig<int, std::string>(program); break;
+        try {
+            switch ((int)program.get("sig", 0)) {
+                case 0: run_sig<>(program); break;
+                case 1: run_sig<int>(program); break;
+                case 2: run_sig<const std::string&>(program); break;
+                default: run_sig<int, std::string>(program); break;
+            }
+        } catch (const std::exception& e) {
+            sim::violation("unexpected-exception", std::string("exception escaped from tulz under valid use: ") + e.what());
         }
     });
 }
